@@ -72,7 +72,12 @@ type ClientCommandSession struct {
 
 	rawUrl string
 	urlCtx base.UrlContext
-	conn   connection.Connection
+	// connMu: conn is set by the connecting goroutine (doContext) while Start's timeout, Dispose and RemoteAddr may
+	// already run in other goroutines. disposed tells the connecting goroutine that nobody is left to close a
+	// connection established from now on.
+	connMu   sync.Mutex
+	disposed bool
+	conn     connection.Connection
 
 	cseq                        int
 	methodGetParameterSupported bool
@@ -152,10 +157,13 @@ func (session *ClientCommandSession) WriteInterleavedPacket(packet []byte, chann
 }
 
 func (session *ClientCommandSession) RemoteAddr() string {
-	if session.conn == nil {
+	session.connMu.Lock()
+	conn := session.conn
+	session.connMu.Unlock()
+	if conn == nil {
 		return ""
 	}
-	return session.conn.RemoteAddr().String()
+	return conn.RemoteAddr().String()
 }
 
 func (session *ClientCommandSession) Url() string {
@@ -181,8 +189,16 @@ func (session *ClientCommandSession) UniqueKey() string {
 func (session *ClientCommandSession) doContext(ctx context.Context, rawUrl string) error {
 	errChan := make(chan error, 1)
 
+	// the url is parsed here and not in the connecting goroutine: Url(), AppName(), StreamName() ... are answered in
+	// other goroutines as soon as Start has returned, also after a timeout
+	session.rawUrl = rawUrl
+	var err error
+	if session.urlCtx, err = base.ParseRtspUrl(rawUrl); err != nil {
+		return err
+	}
+
 	go func() {
-		if err := session.connect(rawUrl); err != nil {
+		if err := session.connect(); err != nil {
 			errChan <- err
 			return
 		}
@@ -332,14 +348,7 @@ func (session *ClientCommandSession) runReadLoop() {
 	}
 }
 
-func (session *ClientCommandSession) connect(rawUrl string) (err error) {
-	session.rawUrl = rawUrl
-
-	session.urlCtx, err = base.ParseRtspUrl(rawUrl)
-	if err != nil {
-		return err
-	}
-
+func (session *ClientCommandSession) connect() (err error) {
 	Log.Debugf("[%s] > tcp connect.", session.uniqueKey)
 
 	// # 建立连接
@@ -347,9 +356,17 @@ func (session *ClientCommandSession) connect(rawUrl string) (err error) {
 	if err != nil {
 		return err
 	}
+	session.connMu.Lock()
+	if session.disposed {
+		// Start has timed out (or the session was disposed) while the connection was being established
+		session.connMu.Unlock()
+		_ = conn.Close()
+		return base.ErrSessionNotStarted
+	}
 	session.conn = connection.New(conn, func(option *connection.Option) {
 		option.ReadBufSize = readBufSize
 	})
+	session.connMu.Unlock()
 	Log.Debugf("[%s] < tcp connect. laddr=%s, raddr=%s", session.uniqueKey, conn.LocalAddr().String(), conn.RemoteAddr().String())
 
 	session.observer.OnConnectResult()
@@ -630,11 +647,15 @@ func (session *ClientCommandSession) dispose(err error) error {
 	var retErr error
 	session.disposeOnce.Do(func() {
 		Log.Infof("[%s] lifecycle dispose rtsp ClientCommandSession. session=%p, err=%+v", session.uniqueKey, session, err)
-		if session.conn == nil {
+		session.connMu.Lock()
+		session.disposed = true
+		conn := session.conn
+		session.connMu.Unlock()
+		if conn == nil {
 			retErr = base.ErrSessionNotStarted
 			return
 		}
-		retErr = session.conn.Close()
+		retErr = conn.Close()
 	})
 	return retErr
 }
